@@ -1374,3 +1374,18 @@ package ring
 //@ afunc Ring.MulScalarBigintThenAdd
 //@   trusted abstract level: p2 receives some ring element (value not tracked)
 //@   assigns p2
+
+// ---- the Montgomery constant (property C01: the precondition q * c = 1 (mod 2^64) of every
+// ---- Montgomery reduction is what GenMRedConstant returns for an odd q).  63 wrapping
+// ---- multiply-and-square steps give q^(2^63 - 1); q^(2^63) = 1 (mod 2^64) for odd q is a Lean theorem.
+//@ func GenMRedConstant
+//@   property C01
+//@   requires q % 2 == 1
+//@   let q0 = old(q)
+//@   ensures (q0 * mredconstant) % W == 1 by pow_odd_unit(q0); cong_trans(mredconstant*q0, q, pow(q0, pow2(63)), W); cong_trans(mredconstant*q0, pow(q0, pow2(63)), 1, W); cong_intro((q0*mredconstant) % W, q0*mredconstant, 0 - (q0*mredconstant)/W, W); cong_trans((q0*mredconstant) % W, q0*mredconstant, 1, W); cong_small((q0*mredconstant) % W, 1, W)
+//@   loop 0 invariant 0 <= i && i <= 63
+//@   loop 0 invariant cong(mredconstant * q0, q, W)
+//@   loop 0 invariant cong(q, pow(q0, pow2(i)), W)
+//@   loop 0 lemma pow_one(q0); cong_refl(q0, W)
+//@   loop 0 lemma cong_intro(q, prev(q)*prev(q), 0 - (prev(q)*prev(q))/W, W); cong_mul(prev(q), pow(q0, pow2(prev(i))), prev(q), pow(q0, pow2(prev(i))), W); pow_add(q0, pow2(prev(i)), pow2(prev(i))); cong_trans(q, prev(q)*prev(q), pow(q0, pow2(prev(i)))*pow(q0, pow2(prev(i))), W)
+//@   loop 0 lemma cong_intro(mredconstant, prev(mredconstant)*prev(q), 0 - (prev(mredconstant)*prev(q))/W, W); cong_scale(mredconstant, prev(mredconstant)*prev(q), q0, W); cong_scale(prev(mredconstant)*q0, prev(q), prev(q), W); cong_trans(mredconstant*q0, prev(mredconstant)*prev(q)*q0, prev(q)*prev(q), W); cong_sym(q, prev(q)*prev(q), W); cong_trans(mredconstant*q0, prev(q)*prev(q), q, W)
